@@ -485,6 +485,12 @@ func SetValueT(
 	isStatic bool,
 ) error {
 
+	// a value always belongs to a named variable: the key without a variable
+	// name is the key of the method itself
+	if variable == "" {
+		return nil
+	}
+
 	if len(variable) > 0 && variable[0] == '*' {
 		variable = variable[1:]
 	}
